@@ -60,3 +60,90 @@ Theorem C12_rm_feature_covers_db : forall c, In c x86_cases_ok -> c_rmcheck c = 
                     rm_feature_claims_true x86_feat_consts c out feats.
 Proof. exact x86_rm_feature_covers_db. Qed.
 Print Assumptions C12_rm_feature_covers_db.
+
+(* ---------------------------------------------------------------- non-vacuity of the universal theorems on the tables of the working tree *)
+(* the vector group's entry of the dumped rw_reg_group_byte_mask_table is all ones (hypothesis of C12_generic_path_vec_masks) *)
+Example C12_vec_group_mask_is_all_ones : group_byte_mask x86_tables grp_vec = ones64.
+Proof. vm_compute. reflexivity. Qed.
+
+(* there are RW records with a write flag and no explicit write mask (hypotheses of C12_generic_path_gp_masks), and with the ZExt mark *)
+Definition plain_write_record (zext : bool) (row : rw_row) : bool :=
+  let dsc := nthN (t_op x86_tables) (nth 0 (rr_ops row) 0) d_op in
+  test (clear (or_flags dsc) fZExt) fW && (or_w dsc =? 0) && (if zext then test (or_flags dsc) fZExt else true).
+Example C12_generic_path_masks_nonvacuous :
+  (exists row, In row (t_rwa x86_tables) /\ plain_write_record false row = true) /\
+  (exists row, In row (t_rwa x86_tables) /\ plain_write_record true row = true).
+Proof.
+  split.
+  - destruct (find (plain_write_record false) (t_rwa x86_tables)) as [r|] eqn:E; [|vm_compute in E; discriminate].
+    apply find_some in E. exists r. exact E.
+  - destruct (find (plain_write_record true) (t_rwa x86_tables)) as [r|] eqn:E; [|vm_compute in E; discriminate].
+    apply find_some in E. exists r. exact E.
+Qed.
+
+(* the hypotheses of C12_features_no_vl_with_zmm hold for a case of the snapshot (a tuple with a 512-bit register and a feature list) *)
+Definition zmm_case (c : case) : bool :=
+  has_rt (fst (reg_analysis (q_arch64 (c_q c)) (q_ops (c_q c)))) rt_vec512 &&
+  match query_features x86_tables x86_feat_consts (c_q c) with Some (_ :: _) => true | _ => false end.
+Example C12_features_no_vl_with_zmm_nonvacuous : exists c, In c x86_cases_ok /\ zmm_case c = true.
+Proof.
+  destruct (find zmm_case x86_cases_ok) as [c|] eqn:E; [|vm_compute in E; discriminate].
+  apply find_some in E. exists c. exact E.
+Qed.
+
+(* explicit forms exist whose record has exactly as many entries as operands (hypothesis of C12_select_row_explicit) *)
+Example C12_select_row_explicit_nonvacuous : exists ii, In ii (t_inst x86_tables) /\
+  entry_count (nthN (t_rwa x86_tables) (ir_a ii) d_rw) = 2%nat.
+Proof.
+  destruct (find (fun ii => Nat.eqb (entry_count (nthN (t_rwa x86_tables) (ir_a ii) d_rw)) 2) (t_inst x86_tables)) as [ii|] eqn:E;
+    [|vm_compute in E; discriminate].
+  apply find_some in E as [I H]. exists ii. split; [exact I | apply Nat.eqb_eq; exact H].
+Qed.
+
+(* non-vacuity of C12_features_one_encoding_family: the tables contain instructions whose feature list names both families (so the refinement
+   really has to choose) *)
+Example C12_features_one_encoding_family_nonvacuous :
+  existsb (fun ad => has_any (take_nonzero (ad_feat ad)) (avx_class x86_feat_consts) &&
+                     has_any (take_nonzero (ad_feat ad)) (avx512_class x86_feat_consts)) (t_addl x86_tables) = true.
+Proof. vm_compute. reflexivity. Qed.
+
+(* the tables of the working tree contain both encoding classes (vexlike true / false in RwModel.generic) *)
+Example C12_legacy_and_vex_instructions_exist :
+  existsb (fun ii => test (ir_cflags ii) (t_vex_flags x86_tables)) (t_inst x86_tables) = true /\
+  existsb (fun ii => negb (test (ir_cflags ii) (t_vex_flags x86_tables))) (t_inst x86_tables) = true.
+Proof. split; vm_compute; reflexivity. Qed.
+
+(* the exactness clause of C12_covers_db (nothing outside the bytes that change may be reported written or
+   extended) is exercised on legacy SSE vector destinations: a snapshot case exists whose first operand is an
+   xmm register written in its low 8 bytes only (movlps / movlpd xmm, m64 keep bytes 8..15) and whose
+   expectation is exact; C12_covers_db then says the model reports write|extend inside 0xFF for it *)
+Definition legacy_low_half_case (c : case) : bool :=
+  match q_ops (c_q c), c_exp c with
+  | OReg rt _ :: OMem 8 _ _ :: nil, e :: _ => (rt =? rt_vec128) && e_gpexact e && e_write e && (e_changed e =? 255)
+  | _, _ => false
+  end.
+Example C12_exactness_on_legacy_vector_destinations : exists c, In c x86_cases_ok /\ legacy_low_half_case c = true /\
+  exists out, query_rw_info x86_tables (c_q c) = Some out /\ covers c out.
+Proof.
+  destruct (find legacy_low_half_case x86_cases_ok) as [c|] eqn:E; [|vm_compute in E; discriminate].
+  apply find_some in E. destruct E as [Hin Hc]. exists c. split; [exact Hin|]. split; [exact Hc|].
+  apply C12_covers_db. apply in_or_app. left. exact Hin.
+Qed.
+Print Assumptions C12_exactness_on_legacy_vector_destinations.
+
+(* exactness is also exercised on memory destinations and on unwritten vector sources: a snapshot case exists with an exact written memory
+   operand, and one with an exact unwritten xmm source (C12_covers_db then forbids the W flag on it) *)
+Definition exact_mem_dest_case (c : case) : bool :=
+  match q_ops (c_q c), c_exp c with
+  | OMem _ _ _ :: _, e :: _ => e_gpexact e && e_write e
+  | _, _ => false
+  end.
+Definition exact_unwritten_vec_case (c : case) : bool :=
+  match q_ops (c_q c), c_exp c with
+  | _ :: OReg rt _ :: _, _ :: e :: _ => (rt =? rt_vec128) && e_gpexact e && negb (e_write e)
+  | _, _ => false
+  end.
+Example C12_exactness_on_memory_and_sources :
+  existsb exact_mem_dest_case x86_cases_ok = true /\ existsb exact_unwritten_vec_case x86_cases_ok = true.
+Proof. split; vm_compute; reflexivity. Qed.
+Print Assumptions C12_exactness_on_memory_and_sources.
